@@ -59,6 +59,20 @@ def is_symbolic(x):
     return False
 
 
+class SymBuffer(object):
+    """what `arr.ctypes.data_as(...)` yields for a symbolic array: the stub of the C routine writes through `.array`"""
+    def __init__(self, arr):
+        self.array = arr
+
+
+class _CtypesHandle(object):
+    def __init__(self, arr):
+        self._arr = arr
+
+    def data_as(self, tp):
+        return SymBuffer(self._arr)
+
+
 class SymArray(np.ndarray):
     """always created owning its data (so that .resize works)"""
 
@@ -105,6 +119,11 @@ class SymArray(np.ndarray):
                 return np.dtype(np.int64)
             return np.dtype(complex) if self.is_complex() else np.dtype(float)
         return real
+
+    @property
+    def ctypes(self):
+        # a symbolic buffer cannot be handed to C: a stub standing for the C routine receives a handle to the array itself
+        return _CtypesHandle(self)
 
     @property
     def real(self):
